@@ -172,6 +172,17 @@ func init() {
 	})
 	// what a block contributes to the table (C01/C02 treat it as "the rows of block n"):
 	// the same stand-ins that decide it for C11/C12/C14
+	// cached answers must be the answers of an uncached client: the shared-client
+	// scenarios of the all-pairs stand-in (different plans, different lengths on one client)
+	for _, pid := range []string{"C06", "C08"} {
+		pid := pid
+		boundedChecks[pid] = append(boundedChecks[pid], func(w *World, tier string, seed int, verif string) []boundedResult {
+			return []boundedResult{runHarness(w, verif, tier, seed, harnessSpec{
+				name: "plan-all-pairs", pkg: "dig", pkgName: "dig", dir: "plan", files: []string{"plan_bounded_test.go"}, run: "TestVerifPlanBounded",
+				bound: "see C14; relevant here: 30 ordered pairs of data plans on one shared client (twice each) and, per plan, requests for the same first block with lengths (2,1,2), (1,2,1), (3,2,3) on one client: every answer must be what an uncached client would deliver (row counts and every stored value)",
+			})}
+		})
+	}
 	for _, pid := range []string{"C01", "C02"} {
 		pid := pid
 		boundedChecks[pid] = append(boundedChecks[pid], func(w *World, tier string, seed int, verif string) []boundedResult {
